@@ -176,3 +176,114 @@ pub fn fmt_norm(day: &NormDay) -> String {
         .collect::<Vec<_>>()
         .join(" ")
 }
+
+// ---- interval streams -------------------------------------------------------------------------
+
+use chrono::{NaiveDateTime, NaiveTime};
+
+pub fn date_start() -> NaiveDateTime {
+    NaiveDate::from_ymd_opt(1900, 1, 1).unwrap().and_time(NaiveTime::MIN)
+}
+
+pub fn date_end() -> NaiveDateTime {
+    NaiveDate::from_ymd_opt(10000, 1, 1).unwrap().and_time(NaiveTime::MIN)
+}
+
+pub type Stream = Vec<(NaiveDateTime, NaiveDateTime, RuleKind)>;
+
+/// The interval stream the daily schedules define on `[from, min(to, 10000-01-01))`:
+/// concatenation of `schedule_at` of every day, clipped, equal neighbours merged.
+pub fn expected_stream<L: Localize>(
+    oh: &OpeningHours<L>,
+    from: NaiveDateTime,
+    to: NaiveDateTime,
+) -> Result<Stream, String> {
+    let to_eff = to.min(date_end());
+    let mut out: Stream = Vec::new();
+    if from >= to_eff {
+        return Ok(out);
+    }
+    fn push(out: &mut Stream, from: NaiveDateTime, to_eff: NaiveDateTime, a: NaiveDateTime, b: NaiveDateTime, k: RuleKind) {
+        let (a, b) = (a.max(from), b.min(to_eff));
+        if a >= b {
+            return;
+        }
+        match out.last_mut() {
+            Some(last) if last.2 == k && last.1 == a => last.1 = b,
+            _ => out.push((a, b, k)),
+        }
+    }
+    let mut d = from.date();
+    if from < date_start() {
+        push(&mut out, from, to_eff, from, date_start(), RuleKind::Closed);
+        d = date_start().date();
+    }
+    while d.and_time(NaiveTime::MIN) < to_eff {
+        let midnight = d.and_time(NaiveTime::MIN);
+        for (a, b, k, _) in day_ranges(oh, d)? {
+            push(
+                &mut out,
+                from,
+                to_eff,
+                midnight + chrono::Duration::minutes(a.into()),
+                midnight + chrono::Duration::minutes(b.into()),
+                k,
+            );
+        }
+        let Some(next) = d.succ_opt() else { break };
+        d = next;
+    }
+    Ok(out)
+}
+
+pub enum Scan {
+    /// The state changes at this instant.
+    Change(NaiveDateTime),
+    /// The state stays the same until 10000-01-01.
+    Never,
+    /// The scan horizon was reached first.
+    Horizon,
+}
+
+/// Kind of the minute containing `t` according to the daily schedule.
+pub fn kind_at<L: Localize>(oh: &OpeningHours<L>, t: NaiveDateTime) -> Result<RuleKind, String> {
+    if t < date_start() || t >= date_end() {
+        return Ok(RuleKind::Closed);
+    }
+    let m = chrono::Timelike::hour(&t) * 60 + chrono::Timelike::minute(&t);
+    Ok(day_kinds(oh, t.date())?[m as usize])
+}
+
+/// Brute-force forward scan of daily schedules: earliest instant after `t` whose kind differs
+/// from the kind at `t`.
+pub fn first_change_after<L: Localize>(
+    oh: &OpeningHours<L>,
+    t: NaiveDateTime,
+    max_days: u32,
+) -> Result<Scan, String> {
+    if t >= date_end() {
+        return Ok(Scan::Never);
+    }
+    let k0 = kind_at(oh, t)?;
+    let mut d = t.date();
+    if t < date_start() {
+        // closed until 1900-01-01T00:00; then look for the first non-closed minute
+        d = date_start().date();
+    }
+    for _ in 0..max_days {
+        let midnight = d.and_time(NaiveTime::MIN);
+        for (a, _, k, _) in day_ranges(oh, d)? {
+            let start = midnight + chrono::Duration::minutes(a.into());
+            if start > t && k != k0 {
+                return Ok(Scan::Change(start));
+            }
+        }
+        match d.succ_opt() {
+            Some(n) if n.and_time(NaiveTime::MIN) < date_end() => d = n,
+            _ => {
+                return Ok(Scan::Never);
+            }
+        }
+    }
+    Ok(Scan::Horizon)
+}
